@@ -9,6 +9,14 @@ VERIF = os.path.dirname(os.path.dirname(os.path.abspath(__file__)))
 # id -> (level, technique, level text, level note, design ref)
 MC = "model_checking"
 CLAIMED = {
+    "C01": (MC, "TLC enumerates source texts over the character classes of Lexer.tla (and token sequences over a 38-word vocabulary); each is replayed into the real lexer / parser / checker / formatter (hook `frontend`), the lexer's tokens must equal the model's and no stage may crash or hang",
+            "exhaustive over every text of <= 3 (quick) / 4 (thorough) characters from 20 classes covering every lexer branch and UTF-8 width, with the lexer's token, comment and error spans compared to the specification; token sequences of length <= 2/3 exhaustively; seeded longer texts, token-boundary truncations and mutations of the repository's 540 Garden files",
+            "beyond the exhaustive bound the exploration is seeded, not complete; nesting deeper than 150 levels overflows the parser's stack (recorded known finding)",
+            "DESIGN.md §6 C01"),
+    "C23": (MC, "TLC computes the position table of Lexer.tla for enumerated texts (lexer positions must equal it) and judges with PosOK every position recorded from the front end, interpreter, JSON session and go-to-definition",
+            "spec->impl: all six position fields of every token, comment and lexer error on every text of <= 3/4 characters from 20 classes and seeded longer texts; impl->spec: every position reported for the repository's Garden files and generated programs, plain, perturbed with multi-line / non-ASCII literals, wide comments, CRLF, and mutated, is validated by TLC against the text's table",
+            "positions naming another file (prelude) are not judged; LSP UTF-16 positions belong to C29",
+            "DESIGN.md §6 C23"),
     "C02": (MC, "TLC: Machine.tla NoStuck on the program family + Builtins.tla call matrix enumeration; every case replayed into the interpreter, crash = violation",
             "TLC checks that every step of the explicit-stack machine is defined on the bounded program family and enumerates the built-in call matrix; each call, the 16x16 integer boundary grid and error-injected programs are run by the real interpreter and must end in a value or a Garden-level error",
             "bounded: the call matrix covers every listed built-in with one representative value per kind; a harness timeout counts as non-termination, not as a crash",
@@ -115,7 +123,7 @@ def main():
             "technique": tech,
         })
     na = [{"property_id": pid, "reason": NOT_APPLICABLE.get(pid, PENDING)} for pid in ids if pid not in CLAIMED]
-    hooks = ["7ca2b86", "6bdcc63", "7624268"]
+    hooks = ["7ca2b86", "6bdcc63", "7624268", "e81137b"]
     m = {
         "version": 1,
         "setup_cmd": "python3 tools/setup.py",
